@@ -277,6 +277,18 @@ def _reg(est, n, off, scale, kind):
     return out
 
 
+def _degenerate_estimate(kind, pooled, n, off, scale, dim):
+    """True iff the regularised pooled estimate is (numerically) not positive definite."""
+    with np.errstate(all="ignore"):
+        if kind == "var":
+            w = np.asarray(_reg(np.var(pooled.astype(np.longdouble), axis=0, ddof=1), n, off, scale, "var"), dtype=np.float64)
+            return bool(np.any(~(w > 1e-300)))
+        cov = np.array([[np.var(pooled.astype(np.longdouble)[:, 0], ddof=1)]]) if dim == 1 else np.cov(pooled.T, ddof=1)
+        w = np.array(_reg(cov, n, off, scale, "cov"), dtype=np.float64)
+        ev = np.linalg.eigvalsh((w + w.T) / 2)
+        return bool(ev[0] <= 1e-13 * max(1.0, ev[-1]))
+
+
 def oracle_batch(case):
     """Adapter metric == inverse of the regularised pooled sample (co)variance (NumPy batch
     formulas with ddof=1), AdaptationError iff fewer than two positions."""
@@ -289,6 +301,12 @@ def oracle_batch(case):
     except _Timeout:
         return ["finalize did not return"]
     except Exception as e:  # noqa: BLE001
+        # a regularised estimate that is not positive definite (e.g. identical positions and
+        # reg_iter_offset = 0: sample variance exactly 0) has no inverse: the library rejects it with the matrix
+        # constructors' ValueError / LinAlgError; that is outside "the inverse of the regularised estimate"
+        if n >= 2 and _degenerate_estimate(kind, pooled, n, off, scale, dim) and type(e).__name__ in (
+                "ValueError", "LinAlgError", "AdaptationError"):
+            return []
         return [f"finalize raised {type(e).__name__}: {e}"]
     if n < 2:
         if "error" not in res:
@@ -1033,6 +1051,12 @@ def run(ctx: common.Ctx):  # noqa: C901, PLR0912, PLR0915
                 if nan_expected(chains) and "nan=1" in mline and type(e).__name__ in ("ValueError", "LinAlgError"):
                     # NumPy's silent 0/0 (merge_nan_iff): the NaN estimate is rejected by the matrix constructor
                     ctx.count("merge:nan_case_rejected_by_matrix_class")
+                    continue
+                pooled_ = np.array([x for c in chains for x in c], dtype=np.float64).reshape(-1, dim)
+                if n >= 2 and type(e).__name__ in ("ValueError", "LinAlgError") and _degenerate_estimate(
+                        kind, pooled_, n, case["off"], case["scale"], dim):
+                    # the regularised estimate is not positive definite (no inverse): rejected by the matrix class
+                    ctx.count("merge:degenerate_estimate_rejected_by_matrix_class")
                     continue
                 ctx.disagreement(f"merge {kind}: implementation raised {type(e).__name__}: {e}", case)
                 check(ctx, "batch", case)
